@@ -60,6 +60,24 @@ CLAIMED = {
         technique='loop-invariant contract on real source, pyvc -> z3',
         design_ref='7/C38',
     ),
+    'C40': dict(
+        text="Atomic-segment rely/guarantee proof on the real methods: every code segment between awaits preserves the invariant and its guarantee, the shared state is havocked at every await subject to invariant and rely (shown stable under other tasks' guarantee), so the invariant holds in every reachable state of every schedule for any number of tasks. " + 'WeightedSemaphore: value >= 0 and value + held == max (never grants more than capacity); acquire returns holding exactly n; on CancelledError the waiter\'s entry is removed or an already-made grant is released; AssertionError only for n > max with nothing changed; _AcquireManager releases on every exit (AST obligations).',
+        note=COMMON_NOTE + 'Assumed: asyncio single-threaded switching at awaits; Event/SortedKeyList contracts; one rely (a still-waiting event is still queued) is a paper argument; callers release what they acquired (discharged for _AcquireManager).',
+        technique='atomic-segment rely/guarantee contracts on real source, pyvc -> z3',
+        design_ref='7/C40, 2.2',
+    ),
+    'C16': dict(
+        text="Atomic-segment rely/guarantee proof on the real methods: every code segment between awaits preserves the invariant and its guarantee, the shared state is havocked at every await subject to invariant and rely (shown stable under other tasks' guarantee), so the invariant holds in every reachable state of every schedule for any number of tasks. " + 'FIFOWeightedSemaphore: capacity invariant; ghost arrival tickets prove every grant goes to the smallest outstanding ticket (FIFO) at both grant sites; a non-empty queue never has a head that fits (no blocked head) at every await/return; context manager and worker call sites by AST obligations.',
+        note=COMMON_NOTE + 'Assumed: asyncio single-threaded switching at awaits; asyncio.Event contract; liveness is the state invariant only (no scheduler fairness); cancellation of a waiter not covered (outside the property text).',
+        technique='atomic-segment rely/guarantee contracts on real source, pyvc -> z3',
+        design_ref='7/C16, 2.2',
+    ),
+    'C24': dict(
+        text="Atomic-segment rely/guarantee proof on the real methods: every code segment between awaits preserves the invariant and its guarantee, the shared state is havocked at every await subject to invariant and rely (shown stable under other tasks' guarantee), so the invariant holds in every reachable state of every schedule for any number of tasks. " + 'RateLimiter.__aenter__: ghost admission history A; _items is exactly the suffix of admissions not yet expired; at every admission the recorded time is the current clock reading and fewer than count admissions lie in (now-window, now]; the sleep lasts exactly until the oldest entry of a full window expires.',
+        note=COMMON_NOTE + 'Assumed: asyncio single-threaded; time.time() non-decreasing; float time arithmetic treated as exact; the step from "at most count in (t-W,t] for every admission t" to "every half-open window" is a paper lemma.',
+        technique='atomic-segment contracts with ghost history on real source, pyvc -> z3',
+        design_ref='7/C24, 2.2',
+    ),
 }
 
 NOT_YET = 'not yet brought within the verifier\'s reach in this build (planned in DESIGN.md section 7); no claim is made'
@@ -112,6 +130,7 @@ def manifest():
         'engines': [
             {'name': 'vcore', 'path': 'vc/core.py', 'serves_properties': sorted(CLAIMED), 'kind_free_text': 'obligation discharge (z3, cvc5 fallback), verdicts, evidence'},
             {'name': 'relang', 'path': 'vc/relang.py', 'serves_properties': [p for p in ('C25', 'C28') if p in CLAIMED], 'kind_free_text': 'string predicates / regex literals -> regular languages'},
+            {'name': 'segments', 'path': 'vc/segments.py', 'serves_properties': [p for p in ('C16', 'C24', 'C26', 'C40') if p in CLAIMED], 'kind_free_text': 'atomic segments / rely-guarantee for asyncio monitors'},
             {'name': 'pyvc', 'path': 'vc/pyvc.py', 'serves_properties': [p for p in sorted(CLAIMED) if p not in ('C28',)], 'kind_free_text': 'Python AST -> verification conditions (symbolic execution with contracts and loop invariants)'},
         ],
         'checks': checks,
